@@ -209,7 +209,7 @@ fn shrink(c: &Case, verdict: &str, timeout: Duration) -> Option<String> {
 }
 
 fn fam_of(id: &str) -> String {
-    if id.starts_with("gen:") { "generated".into() } else if id.starts_with("fit:") { "fit".into() } else { family_of(id) }
+    if id.starts_with("gen:") { "generated".into() } else if id.starts_with("fit:") { "fit".into() } else if id.starts_with("nm:") { "near-miss".into() } else if id.starts_with("hdr:") { "headers".into() } else { family_of(id) }
 }
 
 fn all_with_excluded_ids(progs: &[corpus::Program]) -> Vec<Case> {
@@ -240,6 +240,12 @@ pub fn run(tier: &str, seed: u64, out: &Path) -> i32 {
         if which == "fit" || which == "all" {
             cases.extend(crate::c01gen::fit_universe());
         }
+        if which == "nm" || which == "all" {
+            cases.extend(crate::c01gen::nm_universe());
+        }
+        if which == "hdr" || which == "all" {
+            cases.extend(crate::c01gen::hdr_universe());
+        }
         let mut n_ok = 0usize;
         let mut n_skip = 0usize;
         for chunk in cases.chunks(20000) {
@@ -260,7 +266,7 @@ pub fn run(tier: &str, seed: u64, out: &Path) -> i32 {
     if tier == "show" {
         // C01_SHOW=<element id>[;<element id>…]: writes input, output and configuration of the elements to <out>/ and prints the verdicts
         let want: Vec<String> = std::env::var("C01_SHOW").unwrap_or_default().split(';').map(|s| s.trim().to_string()).filter(|s| !s.is_empty()).collect();
-        let sel: Vec<Case> = all_with_excluded_ids(&progs).into_iter().chain(crate::c01gen::universe()).chain(crate::c01gen::fit_universe()).filter(|c| want.iter().any(|w| *w == c.id)).collect();
+        let sel: Vec<Case> = all_with_excluded_ids(&progs).into_iter().chain(crate::c01gen::universe()).chain(crate::c01gen::fit_universe()).chain(crate::c01gen::nm_universe()).chain(crate::c01gen::hdr_universe()).filter(|c| want.iter().any(|w| *w == c.id)).collect();
         let jobs1: Vec<Job> = sel.iter().map(|c| Job { src: c.src.clone(), cfg: c.cfg.clone(), file_lines: None }).collect();
         let r1 = pool::run_jobs(&jobs1, jobs(), Duration::from_secs(30));
         let js = judge(&sel, Duration::from_secs(30));
@@ -280,10 +286,16 @@ pub fn run(tier: &str, seed: u64, out: &Path) -> i32 {
     let fit_all = crate::c01gen::fit_universe();
     o.count_n("universe_fit", fit_all.len() as u64);
     let fit_clean: Vec<&Case> = fit_all.iter().filter(|c| !dirty.contains_key(&c.id)).collect();
+    let nm_all = crate::c01gen::nm_universe();
+    o.count_n("universe_near_miss", nm_all.len() as u64);
+    let nm_clean: Vec<&Case> = nm_all.iter().filter(|c| !dirty.contains_key(&c.id)).collect();
+    let hdr_all = crate::c01gen::hdr_universe();
+    o.count_n("universe_headers", hdr_all.len() as u64);
+    let hdr_clean: Vec<&Case> = hdr_all.iter().filter(|c| !dirty.contains_key(&c.id)).collect();
     let clean: Vec<&Case> = all.iter().filter(|c| !dirty.contains_key(&c.id)).collect();
     let gen_clean: Vec<&Case> = gen_all.iter().filter(|c| !dirty.contains_key(&c.id)).collect();
     let chosen: Vec<Case> = if tier == "thorough" {
-        clean.iter().chain(gen_clean.iter()).chain(fit_clean.iter()).map(|c| (*c).clone()).collect()
+        clean.iter().chain(gen_clean.iter()).chain(fit_clean.iter()).chain(nm_clean.iter()).chain(hdr_clean.iter()).map(|c| (*c).clone()).collect()
     } else {
         let mut v: Vec<Case> = clean.iter().filter(|c| c.id.ends_with("|base")).map(|c| (*c).clone()).collect();
         let rest: Vec<&&Case> = clean.iter().filter(|c| !c.id.ends_with("|base")).collect();
@@ -296,6 +308,10 @@ pub fn run(tier: &str, seed: u64, out: &Path) -> i32 {
         for _ in 0..40000usize.min(fit_clean.len()) {
             v.push((**rng.pick(&fit_clean)).clone());
         }
+        // the near-miss family is small: all of it
+        v.extend(nm_clean.iter().map(|c| (*c).clone()));
+        // so is the header family
+        v.extend(hdr_clean.iter().map(|c| (*c).clone()));
         v
     };
     let res = judge(&chosen, timeout);
@@ -325,7 +341,7 @@ pub fn run(tier: &str, seed: u64, out: &Path) -> i32 {
         }
     }
     // the enumerated dirty elements: probes grouped by the id of the defect they show
-    let dirty_cases: Vec<Case> = all.iter().chain(gen_all.iter()).chain(fit_all.iter()).filter(|c| dirty.contains_key(&c.id)).cloned().collect();
+    let dirty_cases: Vec<Case> = all.iter().chain(gen_all.iter()).chain(fit_all.iter()).chain(nm_all.iter()).chain(hdr_all.iter()).filter(|c| dirty.contains_key(&c.id)).cloned().collect();
     let dres = judge(&dirty_cases, timeout);
     let mut by_family: std::collections::BTreeMap<String, (usize, usize, String)> = Default::default();
     for (c, j) in dirty_cases.iter().zip(dres.iter()) {
